@@ -392,6 +392,7 @@ def main(t, sd):
                exhaustive=not inconc, explanation='states = leaves + fork nodes of the decision trees (per sentence length and trivia position); transitions = MIR statements executed incl. the ast.rs accessors',
                bounds=dict(max_tokens_no_trivia=N, max_tokens_with_one_trivia=NT + 1, symbol_chars_max=NS, tier=t), sentence_paths=paths, check_string_paths=spaths, solver_queries=queries, solver_time_s=round(stime, 3),
                functions_encoded=sorted(fns), std_models=sorted(mods), inconclusive=inconc[:40], engine_native_mismatches=mism[:20], violations_reported=reported)
+    cov['built_from'] = dict(harness.LLW_INFO) or dict(repo=harness.REPO, source_digest=harness.source_digest())   # which source tree this run compiled
     ev = dict(property_id='C13', tier=t, seed=sd, level='model_checking', coverage=cov, wall_s=round(time.time() - t0, 2), violations=reported,
               assumptions=['PARTIAL: tokens are given (lexer intercepted): names, numbers, symbols are compared as token positions',
                            'reference grammar of the grammar language written from the README; inputs are constrained to its sentences',
